@@ -18,7 +18,7 @@ def register(prop, J):
                     "of the property: client error equals the resource's error response field by field, HTTP status and error header, "
                     "failure status and message for plain errors / panics / nil entities, unmodified error objects, default and "
                     "overridden success statuses, server still usable",
-         level_note="per-key batch errors are part of C02's outcome generator; the concurrent sharing of error objects is exercised by C17; "
+         level_note="per-key batch errors: TestC08BatchErrors (every case holds at least one full error response under a key); panics are a string, an error value or a nil dereference; the concurrent sharing of error objects is exercised by C17; "
                     "root-module run (errors-v1): its ErrorResponse has 4 fields (status, message, exceptionClass, stackTrace), the "
                     "other 6 are not scripted there",
          technique="property-based testing (rapid) over generated bindings with a propagation-table oracle",
